@@ -51,11 +51,13 @@ def walk_cases(ctx):
     out = []
     Ds = list(range(2, 24)) if ctx.tier == "quick" else list(range(2, 68))
     for D in Ds:
-        starts = range(D) if (ctx.tier == "thorough" and D <= 24) else sorted({0, 1, D // 2 - 1, D // 2, D // 2 + 1, D - 1} | {r.randrange(D) for _ in range(3)})
+        starts = range(D) if (ctx.tier == "thorough" and D <= 40) else sorted({0, 1, D // 2 - 1, D // 2, D // 2 + 1, D - 1} | {r.randrange(D) for _ in range(3)})
         for start in starts:
             if start < 0 or start >= D:
                 continue
             lens = sorted({1, 2, D // 2, D // 2 + 1, D - 1, D} | {r.randrange(1, D + 1) for _ in range(2)})
+            if ctx.tier == "thorough" and D <= 16:
+                lens = list(range(1, D + 1))
             for ln in lens:
                 if 1 <= ln <= D:
                     out.append((D, start, ln))
